@@ -9,6 +9,7 @@ from collections import deque
 from typing import TYPE_CHECKING
 from typing import Deque
 from typing import Iterable
+from typing import Iterator
 from typing import List
 from typing import Tuple
 
@@ -81,21 +82,22 @@ class JSONPathRecursiveDescentSegment(JSONPathSegment):
 
     def _visit(self, node: JSONPathNode, depth: int = 1) -> Iterable[JSONPathNode]:
         """Depth-first, pre-order node traversal."""
-        if depth > self.env.max_recursion_depth:
-            raise JSONPathRecursionError("recursion limit exceeded", token=self.token)
+        # One iterator of sibling nodes per level of nesting, rather than one
+        # Python frame per level, so `max_recursion_depth` is the only limit.
+        stack: List[Iterator[JSONPathNode]] = [iter((node,))]
 
-        yield node
+        while stack:
+            for _node in stack[-1]:
+                if depth + len(stack) - 1 > self.env.max_recursion_depth:
+                    raise JSONPathRecursionError(
+                        "recursion limit exceeded", token=self.token
+                    )
 
-        if isinstance(node.value, dict):
-            for name, val in node.value.items():
-                if isinstance(val, (dict, list)):
-                    _node = node.new_child(val, name)
-                    yield from self._visit(_node, depth + 1)
-        elif isinstance(node.value, list):
-            for i, element in enumerate(node.value):
-                if isinstance(element, (dict, list)):
-                    _node = node.new_child(element, i)
-                    yield from self._visit(_node, depth + 1)
+                yield _node
+                stack.append(_container_children(_node))
+                break
+            else:
+                stack.pop()
 
     def _nondeterministic_visit(
         self,
@@ -139,6 +141,18 @@ class JSONPathRecursiveDescentSegment(JSONPathSegment):
 
     def __hash__(self) -> int:
         return hash(("..", self.selectors, self.token))
+
+
+def _container_children(node: JSONPathNode) -> Iterator[JSONPathNode]:
+    """Yield a node for each child of _node_ that is an array or object."""
+    if isinstance(node.value, dict):
+        for name, val in node.value.items():
+            if isinstance(val, (dict, list)):
+                yield node.new_child(val, name)
+    elif isinstance(node.value, list):
+        for i, element in enumerate(node.value):
+            if isinstance(element, (dict, list)):
+                yield node.new_child(element, i)
 
 
 def _nondeterministic_runs(node: JSONPathNode) -> List[Deque[JSONPathNode]]:
